@@ -192,7 +192,7 @@ def prep_many(assumptions, goals, split_depth=0, normalizer=None):
     assumptions = list(assumptions)
     goals = list(goals)
     # 1. recogniser facts make their subjects constructor-headed
-    for _ in range(4):
+    for _ in range(8):
         subs = _recognizer_facts(assumptions)
         # only substitute subjects that are not themselves inside another pending subject
         if not subs:
